@@ -94,6 +94,7 @@ def plainValue (s : MState) : Node → Option (Reg × Word)
 structure PlainStep (s s' : MState) (rd : Reg) (v : Word) : Prop where
   wr : rd ≠ 0 → s'.reg rd = v
   keep : ∀ r, r ≠ rd → s'.reg r = s.reg r
+  zero : s'.reg 0 = s.reg 0
   entry : s'.entry = s.entry
   addr : s'.addr = s.addr
 
@@ -409,7 +410,7 @@ theorem genReg_sound (n : Node) (s s' : MState) (rd : Reg) (v : Word) (r : Reg) 
 theorem mem_toList (s : RegSet) (k : Reg) : k ∈ RegSet.toList s ↔ k < 32 ∧ RegSet.mem s k = true := by
   simp [RegSet.toList]
 
-theorem mem_single (rd k : Nat) (hrd : rd < 32) : RegSet.mem (RegSet.single rd) k = decide (k = rd) := by
+theorem mem_singleReg (rd k : Nat) (hrd : rd < 32) : RegSet.mem (RegSet.single rd) k = decide (k = rd) := by
   unfold RegSet.mem RegSet.single
   rw [BitVec.getLsbD_shiftLeft]
   by_cases hk : k = rd
@@ -440,7 +441,7 @@ def plainKill (rd : Reg) : RegSet := RegSet.diff (RegSet.single rd) constZeroSet
 
 theorem mem_plainKill (rd k : Reg) (hrd : rd < 32) :
     k ∈ RegSet.toList (plainKill rd) ↔ k = rd ∧ rd ≠ 0 := by
-  rw [mem_toList, plainKill, mem_diff', mem_single rd k hrd, mem_constZero]
+  rw [mem_toList, plainKill, mem_diff', mem_singleReg rd k hrd, mem_constZero]
   constructor
   · intro ⟨_, h⟩
     simp only [Bool.and_eq_true, decide_eq_true_eq, Bool.not_eq_true', decide_eq_false_iff_not] at h
@@ -449,32 +450,87 @@ theorem mem_plainKill (rd k : Reg) (hrd : rd < 32) :
     subst h1
     exact ⟨hrd, by simp [h2]⟩
 
-/-! ### the rules on keys other than the destination, and on plain claims -/
+/-! ### claims and maps -/
 
-/-- no claim is relative to the zero register (such claims are never created: the entry seeds
-    are callee-saved registers, folding keeps the base register) -/
-def NoZeroBase (m : AMap Reg) : Prop :=
-  ∀ p ∈ m, match p.2 with
-    | .ors r _ => r ≠ 0
-    | .rs r _ => r ≠ 0
-    | _ => True
+/-- a claim about register `k` stays true when `k`, the entry values and the label addresses
+    are unchanged -/
+theorem claim_frame (s s' : MState) (k : Reg) (val : AVal) (hreg : s'.reg k = s.reg k)
+    (hentry : s'.entry = s.entry) (haddr : s'.addr = s.addr) (h : claimHolds s k val) :
+    claimHolds s' k val := by
+  cases val with
+  | const c => show s'.reg k = c; rw [hreg]; exact h
+  | addr l => show s'.reg k = s'.addr l; rw [hreg, haddr]; exact h
+  | ors r0 o => show s'.reg k = s'.entry r0 + o; rw [hreg, hentry]; exact h
+  | rs r0 o => intro h0; show s'.reg k = o; rw [hreg]; exact h h0
+  | _ => trivial
 
-theorem zeroConsts_id (out inn : AMap Reg) (h : NoZeroBase inn) : zeroConsts out inn = out := by
+/-- soundness of every claim except those about x0 (the out-map never keeps a claim about x0:
+    the last step of the transfer function erases it) -/
+def SoundNZ (s : MState) (m : AMap Reg) : Prop :=
+  ∀ r v, r ≠ 0 → AMap.get m r = some v → claimHolds s r v
+
+theorem soundNZ_insert (s : MState) (m : AMap Reg) (k : Reg) (v : AVal) (hm : SoundNZ s m)
+    (hv : k ≠ 0 → claimHolds s k v) : SoundNZ s (AMap.insert m k v) := by
+  intro r val hr0 h
+  by_cases hr : r = k
+  · subst hr; rw [AMap.get_insert_self] at h; exact (Option.some.inj h) ▸ hv hr0
+  · rw [AMap.get_insert_ne m r k v (fun e => hr e.symm)] at h; exact hm r val hr0 h
+
+theorem sound_of_soundNZ_erase (s : MState) (m : AMap Reg) (hm : SoundNZ s m) : Sound s (AMap.erase m 0) := by
+  intro r val h
+  by_cases hr : r = 0
+  · subst hr; rw [AMap.get_erase_self] at h; simp at h
+  · rw [AMap.get_erase_ne m r 0 (fun e => hr e.symm)] at h; exact hm r val hr h
+
+/-! ### the estimation rules preserve soundness (in the state after the instruction) -/
+
+/-- `rule_zero_to_const`: a description relative to x0 that is still in the outs is a constant -/
+theorem zeroStep_sound (s : MState) (acc : AMap Reg) (p : Reg × AVal) (he0 : s.entry 0 = 0#32)
+    (h : SoundNZ s acc) : SoundNZ s (zeroStep acc p) := by
+  unfold zeroStep
+  split
+  · rename_i r i heq
+    split
+    · rename_i hc
+      simp only [Bool.and_eq_true, beq_iff_eq] at hc
+      apply soundNZ_insert s acc p.1 _ h
+      intro hk0
+      have := h p.1 p.2 hk0 hc.2
+      rw [heq, hc.1] at this
+      show s.reg p.1 = i
+      rw [this, he0]; simp
+    · exact h
+  · rename_i r i heq
+    split
+    · rename_i hc
+      simp only [Bool.and_eq_true, beq_iff_eq] at hc
+      apply soundNZ_insert s acc p.1 _ h
+      intro hk0
+      have := h p.1 p.2 hk0 hc.2
+      rw [heq] at this
+      exact this hc.1
+    · exact h
+  · exact h
+
+theorem zeroConsts_sound (s : MState) (out inn : AMap Reg) (he0 : s.entry 0 = 0#32) (h : SoundNZ s out) :
+    SoundNZ s (zeroConsts out inn) := by
   unfold zeroConsts
   induction inn generalizing out with
-  | nil => rfl
-  | cons p ps ih =>
-    simp only [List.foldl_cons]
-    have hp := h p List.mem_cons_self
-    have hrest : NoZeroBase ps := fun q hq => h q (List.mem_cons_of_mem _ hq)
-    have : zeroStep out p = out := by
-      unfold zeroStep
-      split
-      · rename_i r i heq; rw [heq] at hp; simp at hp; simp [hp]
-      · rename_i r i heq; rw [heq] at hp; simp at hp; simp [hp]
-      · rfl
-    rw [this]
-    exact ih out hrest
+  | nil => exact h
+  | cons p ps ih => simp only [List.foldl_cons]; exact ih _ (zeroStep_sound s out p he0 h)
+
+/-- `rule_perform_math_ops`: inserts the folded claim at the destination -/
+theorem performMath_sound (s : MState) (n : Node) (out inn : AMap Reg) (h : SoundNZ s out)
+    (hm : ∀ rd v, n.writesTo = some rd → rd.val ≠ 0 → mathResult n inn = some v → claimHolds s rd.val v) :
+    SoundNZ s (rulePerformMathOps n out inn) := by
+  unfold rulePerformMathOps
+  cases hw : n.writesTo with
+  | none => exact h
+  | some rd =>
+    simp only []
+    cases hr : mathResult n inn with
+    | none => exact h
+    | some v => exact soundNZ_insert s out rd.val v h (fun h0 => hm rd v hw h0 hr)
 
 theorem get_pullCsr_ne (out : AMap Reg) (memIn : AMap MemLoc) (rd k : Reg) (hk : k ≠ rd) :
     AMap.get (pullCsrValue out memIn rd) k = AMap.get out k := by
@@ -496,60 +552,66 @@ theorem get_pullStack_ne (out : AMap Reg) (memIn : AMap MemLoc) (rd k : Reg) (hk
     · rfl
   · rfl
 
-theorem get_valueFromStack_ne (n : Node) (out : AMap Reg) (memIn : AMap MemLoc) (wrd : W Reg) (k : Reg)
-    (hw : n.writesTo = some wrd) (hk : k ≠ wrd.val) :
-    AMap.get (ruleValueFromStack n out memIn) k = AMap.get out k := by
+/-- `rule_value_from_stack` only touches the destination, and leaves it alone unless its claim
+    is a CSR value or a stack reference -/
+theorem valueFromStack_sound (s : MState) (n : Node) (out : AMap Reg) (memIn : AMap MemLoc)
+    (h : SoundNZ s out)
+    (hplain : ∀ rd x, n.writesTo = some rd → rd.val ≠ 0 → AMap.get out rd.val = some x →
+      (∀ c, x ≠ .vcsr c) ∧ (∀ r o, x ≠ .omr r o)) :
+    SoundNZ s (ruleValueFromStack n out memIn) := by
   unfold ruleValueFromStack
-  rw [hw]
+  cases hw : n.writesTo with
+  | none => exact h
+  | some wrd =>
+    simp only []
+    by_cases h0 : wrd.val = 0
+    · -- the destination is x0: only the entry of x0 can change
+      intro r v hr0 hget
+      have hne : r ≠ wrd.val := by rw [h0]; exact hr0
+      rw [get_pullStack_ne _ _ _ _ hne, get_pullCsr_ne _ _ _ _ hne] at hget
+      exact h r v hr0 hget
+    · have h1 : pullCsrValue out memIn wrd.val = out := by
+        unfold pullCsrValue
+        split
+        · rename_i c heq
+          exact absurd rfl ((hplain wrd _ hw h0 heq).1 c)
+        · rfl
+      rw [h1]
+      have h2 : pullStackValue out memIn wrd.val = out := by
+        unfold pullStackValue
+        split
+        · rename_i r o heq
+          exact absurd rfl ((hplain wrd _ hw h0 heq).2 r o)
+        · rfl
+      rw [h2]; exact h
+
+/-! ### the transfer function on instructions that do not read memory -/
+
+/-- instructions for which the two memory-reading rules cannot apply -/
+def Node.noMemRead (n : Node) : Prop :=
+  n.readsFromMemory = none ∧ ∀ out inn, ruleExpandAddressForLoad n out inn = out
+
+/-- **composition of the rules.** If the map before the estimation rules is sound (except at
+    x0) in the state after the instruction, the stack rule finds nothing to replace at a
+    destination other than x0, and the folded claim (if any) is true, then the out-map is
+    sound. -/
+theorem rules_sound (cn : CNode) (inReg : AMap Reg) (inMem : AMap MemLoc) (s' : MState)
+    (hnm : cn.node.noMemRead) (he0 : s'.entry 0 = 0#32)
+    (hpre : SoundNZ s' (preRules cn inReg))
+    (hvfs : ∀ rd x, cn.node.writesTo = some rd → rd.val ≠ 0 →
+      AMap.get (preRules cn inReg) rd.val = some x → (∀ c, x ≠ .vcsr c) ∧ (∀ r o, x ≠ .omr r o))
+    (hmath : ∀ rd v, cn.node.writesTo = some rd → rd.val ≠ 0 → mathResult cn.node inReg = some v →
+      claimHolds s' rd.val v) :
+    Sound s' (nodeRegOut cn inReg inMem) := by
+  unfold nodeRegOut
   simp only []
-  rw [get_pullStack_ne _ _ _ _ hk, get_pullCsr_ne _ _ _ _ hk]
-
-/-- a destination whose claim is not a CSR value or a stack reference is left alone -/
-theorem valueFromStack_plain (n : Node) (out : AMap Reg) (memIn : AMap MemLoc) (wrd : W Reg)
-    (hw : n.writesTo = some wrd)
-    (hplain : ∀ x, AMap.get out wrd.val = some x → (∀ c, x ≠ .vcsr c) ∧ (∀ r o, x ≠ .omr r o)) :
-    ruleValueFromStack n out memIn = out := by
-  unfold ruleValueFromStack
-  rw [hw]
-  simp only []
-  have h1 : pullCsrValue out memIn wrd.val = out := by
-    unfold pullCsrValue
-    split
-    · rename_i c heq
-      exact absurd rfl ((hplain _ heq).1 c)
-    · rfl
-  rw [h1]
-  unfold pullStackValue
-  split
-  · rename_i r o heq
-    exact absurd rfl ((hplain _ heq).2 r o)
-  · rfl
-
-theorem get_performMath_ne (n : Node) (out inn : AMap Reg) (wrd : W Reg) (k : Reg)
-    (hw : n.writesTo = some wrd) (hk : k ≠ wrd.val) :
-    AMap.get (rulePerformMathOps n out inn) k = AMap.get out k := by
-  unfold rulePerformMathOps
-  rw [hw]
-  simp only []
-  split
-  · exact AMap.get_insert_ne out k wrd.val _ (fun e => hk e.symm)
-  · rfl
-
-theorem get_performMath_self (n : Node) (out inn : AMap Reg) (wrd : W Reg)
-    (hw : n.writesTo = some wrd) :
-    AMap.get (rulePerformMathOps n out inn) wrd.val =
-      match mathResult n inn with
-      | some v => some v
-      | none => AMap.get out wrd.val := by
-  unfold rulePerformMathOps
-  rw [hw]
-  simp only []
-  cases mathResult n inn with
-  | some v => exact AMap.get_insert_self out wrd.val v
-  | none => rfl
-
-
-/-! ### the transfer function on register-to-register instructions -/
+  rw [hnm.2]
+  have hpull : ∀ out, rulePullValueFromCsrMemory cn.node out cn.memOut = out := by
+    intro out; unfold rulePullValueFromCsrMemory; rw [hnm.1]
+  rw [hpull]
+  exact sound_of_soundNZ_erase s' _
+    (performMath_sound s' cn.node _ inReg
+      (zeroConsts_sound s' _ inReg he0 (valueFromStack_sound s' cn.node _ inMem hpre hvfs)) hmath)
 
 /-- register-to-register instructions: R-type, I-type (incl. `lui`), `la` -/
 def Node.isPlain : Node → Bool
@@ -604,44 +666,6 @@ theorem genReg_kind (n : Node) (hp : n.isPlain = true) (r : Reg) (val : AVal)
   · exact ⟨fun _ => by simp, fun _ _ => by simp⟩
   · exact ⟨fun _ => by simp, fun _ _ => by simp⟩
 
-/-- `out[n]` of a plain instruction, rule by rule (everything that cannot apply to it removed) -/
-theorem plain_regOut (cn : CNode) (inReg : AMap Reg) (inMem : AMap MemLoc) (wrd : W Reg)
-    (hp : cn.node.isPlain = true) (hw : cn.node.writesTo = some wrd) (hnz : NoZeroBase inReg) :
-    nodeRegOut cn inReg inMem =
-      AMap.erase (rulePerformMathOps cn.node
-        (ruleValueFromStack cn.node
-          (insertGen ((RegSet.toList (plainKill wrd.val)).foldl AMap.erase inReg) cn.node.genRegValue)
-          inMem) inReg) 0 := by
-  unfold nodeRegOut
-  have hcall : cn.node.callsTo = none := by
-    cases h : cn.node <;> rw [h] at hp <;> simp [Node.isPlain, Node.callsTo] at hp ⊢
-  have hfe : cn.node.isFunctionEntry = false := by
-    cases h : cn.node <;> rw [h] at hp <;> simp [Node.isPlain, Node.isFunctionEntry] at hp ⊢
-  have hhe : cn.node.isHandlerFunctionEntry = false := by
-    cases h : cn.node <;> rw [h] at hp <;> simp [Node.isPlain, Node.isHandlerFunctionEntry] at hp ⊢
-  have hpe : cn.node.isProgramEntry = false := by
-    cases h : cn.node <;> rw [h] at hp <;> simp [Node.isPlain, Node.isProgramEntry] at hp ⊢
-  have hec : cn.node.isEcall = false := by
-    cases h : cn.node <;> rw [h] at hp <;> simp [Node.isPlain, Node.isEcall] at hp ⊢
-  have hrm : cn.node.readsFromMemory = none := by
-    cases h : cn.node <;> rw [h] at hp <;> simp [Node.isPlain, Node.readsFromMemory] at hp ⊢
-  have hkill : cn.node.killReg = plainKill wrd.val := by
-    unfold Node.killReg plainKill
-    simp [hcall, hfe, hw]
-  have hsig : ecallSignature { cn with regIn := inReg } = none := by
-    unfold ecallSignature knownEcall
-    simp [hec]
-  have hexp : ∀ out, ruleExpandAddressForLoad cn.node out inReg = out := by
-    intro out
-    cases h : cn.node <;> rw [h] at hp <;> simp [Node.isPlain, ruleExpandAddressForLoad] at hp ⊢
-  have hpull : ∀ out, rulePullValueFromCsrMemory cn.node out cn.memOut = out := by
-    intro out
-    unfold rulePullValueFromCsrMemory
-    rw [hrm]
-  simp only [hcall, hfe, hhe, hpe, hec, hkill, hsig, hexp, hpull, zeroConsts_id _ _ hnz,
-    Option.isSome_none, Bool.false_eq_true, if_false, Bool.false_and]
-
-
 theorem plainValue_dest (s : MState) (n : Node) (rd : Reg) (v : Word) (h : plainValue s n = some (rd, v)) :
     n.isPlain = true ∧ ∃ wrd, n.writesTo = some wrd ∧ wrd.val = rd := by
   cases n with
@@ -667,6 +691,37 @@ theorem plainValue_dest (s : MState) (n : Node) (rd : Reg) (v : Word) (h : plain
     exact ⟨rfl, wrd, rfl, h.1⟩
   | _ => simp [plainValue] at h
 
+theorem plain_noMemRead (n : Node) (hp : n.isPlain = true) : n.noMemRead := by
+  constructor
+  · cases n <;> simp [Node.isPlain, Node.readsFromMemory] at hp ⊢
+  · intro out inn
+    cases n <;> simp [Node.isPlain, ruleExpandAddressForLoad] at hp ⊢
+
+/-- the map before the rules, for a plain instruction -/
+theorem plain_preRules (cn : CNode) (inReg : AMap Reg) (wrd : W Reg)
+    (hp : cn.node.isPlain = true) (hw : cn.node.writesTo = some wrd) :
+    preRules cn inReg =
+      insertGen ((RegSet.toList (plainKill wrd.val)).foldl AMap.erase inReg) cn.node.genRegValue := by
+  unfold preRules
+  have hcall : cn.node.callsTo = none := by
+    cases h : cn.node <;> rw [h] at hp <;> simp [Node.isPlain, Node.callsTo] at hp ⊢
+  have hfe : cn.node.isFunctionEntry = false := by
+    cases h : cn.node <;> rw [h] at hp <;> simp [Node.isPlain, Node.isFunctionEntry] at hp ⊢
+  have hhe : cn.node.isHandlerFunctionEntry = false := by
+    cases h : cn.node <;> rw [h] at hp <;> simp [Node.isPlain, Node.isHandlerFunctionEntry] at hp ⊢
+  have hpe : cn.node.isProgramEntry = false := by
+    cases h : cn.node <;> rw [h] at hp <;> simp [Node.isPlain, Node.isProgramEntry] at hp ⊢
+  have hec : cn.node.isEcall = false := by
+    cases h : cn.node <;> rw [h] at hp <;> simp [Node.isPlain, Node.isEcall] at hp ⊢
+  have hkill : cn.node.killReg = plainKill wrd.val := by
+    unfold Node.killReg plainKill
+    simp [hcall, hfe, hw]
+  have hsig : ecallSignature { cn with regIn := inReg } = none := by
+    unfold ecallSignature knownEcall
+    simp [hec]
+  simp only [hcall, hfe, hhe, hpe, hec, hkill, hsig, Option.isSome_none, Bool.false_eq_true, if_false,
+    Bool.false_and]
+
 /-- **C01 (`plain_transfer_sound`).** The register transfer function of the value analysis is
     sound on every register-to-register instruction (all RV32IM computational instructions in
     R and I form, `lui`, `la`): if every claim of the in-map is true before the instruction,
@@ -676,16 +731,9 @@ theorem plainValue_dest (s : MState) (n : Node) (rd : Reg) (v : Word) (h : plain
 theorem plain_transfer_sound (cn : CNode) (inReg : AMap Reg) (inMem : AMap MemLoc) (s s' : MState)
     (rd : Reg) (v : Word)
     (hval : plainValue s cn.node = some (rd, v)) (hrd : rd < 32) (hz : s.reg 0 = 0#32)
-    (hwf : AMap.WF inReg) (hnz : NoZeroBase inReg) (hs : Sound s inReg)
+    (he0 : s.entry 0 = 0#32) (hs : Sound s inReg)
     (hstep : PlainStep s s' rd v) : Sound s' (nodeRegOut cn inReg inMem) := by
   obtain ⟨hp, wrd, hw, hwrd⟩ := plainValue_dest s cn.node rd v hval
-  rw [plain_regOut cn inReg inMem wrd hp hw hnz, hwrd]
-  intro k val hget
-  -- x0 carries no claim
-  have hk0 : k ≠ 0 := by
-    intro e; subst e; rw [AMap.get_erase_self] at hget; simp at hget
-  rw [AMap.get_erase_ne _ k 0 (fun e => hk0 e.symm)] at hget
-  -- the map after the kills
   have hkilled : ∀ j, AMap.get ((RegSet.toList (plainKill rd)).foldl AMap.erase inReg) j =
       if j = rd ∧ rd ≠ 0 then none else AMap.get inReg j := by
     intro j
@@ -695,91 +743,82 @@ theorem plain_transfer_sound (cn : CNode) (inReg : AMap Reg) (inMem : AMap MemLo
       rw [if_pos hj, if_pos hh]
     · have : ¬ (j = rd ∧ rd ≠ 0) := fun h => hj ((mem_plainKill rd j hrd).mpr h)
       rw [if_neg hj, if_neg this]
-  by_cases hk : k = rd
-  · -- the destination
-    subst hk
-    rw [← hwrd] at hget
-    rw [get_performMath_self _ _ _ wrd hw] at hget
-    cases hm : mathResult cn.node inReg with
-    | some mv =>
-      rw [hm] at hget
-      simp only [Option.some.injEq] at hget
-      subst hget
-      exact mathResult_sound cn.node inReg s s' k v mv hs hval hstep hk0 hm
+  -- what survives the kills is true in the new state
+  have hkills : ∀ k val, k ≠ 0 → AMap.get ((RegSet.toList (plainKill rd)).foldl AMap.erase inReg) k = some val →
+      claimHolds s' k val := by
+    intro k val hk0 hget
+    rw [hkilled] at hget
+    by_cases hk : k = rd
+    · subst hk; simp [hk0] at hget
+    · have hget' : AMap.get inReg k = some val := by simpa [hk] using hget
+      exact claim_frame s s' k val (hstep.keep k hk) hstep.entry hstep.addr (hs k val hget')
+  apply rules_sound cn inReg inMem s' (plain_noMemRead _ hp) (by rw [hstep.entry]; exact he0)
+  · -- the map before the rules
+    rw [plain_preRules cn inReg wrd hp hw, hwrd]
+    intro k val hk0 hget
+    cases hg : cn.node.genRegValue with
+    | some p =>
+      obtain ⟨r, gv⟩ := p
+      obtain ⟨hr, _, hclaim⟩ := genReg_sound cn.node s s' rd v r gv hz hval hstep hg
+      rw [hg] at hget
+      simp only [insertGen] at hget
+      by_cases hk : k = r
+      · subst hk
+        rw [AMap.get_insert_self] at hget
+        rw [hr]
+        exact (Option.some.inj hget) ▸ hclaim
+      · rw [AMap.get_insert_ne _ k r _ (fun e => hk e.symm)] at hget
+        exact hkills k val hk0 hget
     | none =>
-      rw [hm] at hget
-      simp only [] at hget
-      cases hg : cn.node.genRegValue with
-      | some p =>
-        obtain ⟨r, gv⟩ := p
-        obtain ⟨hr, _, hclaim⟩ := genReg_sound cn.node s s' k v r gv hz hval hstep hg
-        subst hr
-        rw [hg] at hget
-        simp only [insertGen] at hget
-        rw [valueFromStack_plain cn.node _ inMem wrd hw (by
-          intro x hx
-          rw [hwrd, AMap.get_insert_self] at hx
-          simp only [Option.some.injEq] at hx
-          subst hx
-          exact genReg_kind cn.node hp r gv hg)] at hget
-        rw [hwrd, AMap.get_insert_self] at hget
-        simp only [Option.some.injEq] at hget
-        subst hget
-        exact hclaim
-      | none =>
-        rw [hg] at hget
-        simp only [insertGen] at hget
-        rw [valueFromStack_plain cn.node _ inMem wrd hw (by
-          intro x hx
-          rw [hwrd, hkilled] at hx
-          simp [hk0] at hx)] at hget
-        rw [hwrd, hkilled] at hget
-        simp [hk0] at hget
-  · -- every other register: the claim comes unchanged from the in-map, the register is unchanged
-    have hkw : k ≠ wrd.val := by rw [hwrd]; exact hk
-    rw [get_performMath_ne _ _ _ wrd k hw hkw, get_valueFromStack_ne _ _ _ wrd k hw hkw] at hget
-    have hin : AMap.get inReg k = some val := by
-      cases hg : cn.node.genRegValue with
-      | some p =>
-        obtain ⟨r, gv⟩ := p
-        obtain ⟨hr, _, _⟩ := genReg_sound cn.node s s' rd v r gv hz hval hstep hg
-        rw [hg] at hget
-        simp only [insertGen] at hget
-        rw [AMap.get_insert_ne _ k r _ (by rw [hr]; exact fun e => hk e.symm), hkilled] at hget
-        simpa [hk] using hget
-      | none =>
-        rw [hg] at hget
-        simp only [insertGen] at hget
-        rw [hkilled] at hget
-        simpa [hk] using hget
-    have hold := hs k val hin
-    have hreg := hstep.keep k hk
-    cases val with
-    | const c => show s'.reg k = c; rw [hreg]; exact hold
-    | addr l => show s'.reg k = s'.addr l; rw [hreg, hstep.addr]; exact hold
-    | ors r0 o => show s'.reg k = s'.entry r0 + o; rw [hreg, hstep.entry]; exact hold
-    | _ => trivial
+      rw [hg] at hget
+      simp only [insertGen] at hget
+      exact hkills k val hk0 hget
+  · -- the stack rule finds nothing to replace at the destination
+    intro wrd' x hw' hrd0 hx
+    rw [hw] at hw'
+    have : wrd' = wrd := (Option.some.inj hw').symm
+    subst this
+    rw [plain_preRules cn inReg wrd' hp hw, hwrd] at hx
+    rw [hwrd] at hrd0
+    cases hg : cn.node.genRegValue with
+    | some p =>
+      obtain ⟨r, gv⟩ := p
+      obtain ⟨hr, _, _⟩ := genReg_sound cn.node s s' rd v r gv hz hval hstep hg
+      rw [hg] at hx
+      simp only [insertGen] at hx
+      rw [hr, AMap.get_insert_self] at hx
+      exact (Option.some.inj hx) ▸ genReg_kind cn.node hp r gv hg
+    | none =>
+      rw [hg] at hx
+      simp only [insertGen] at hx
+      rw [hkilled] at hx
+      simp [hrd0] at hx
+  · -- the folded claim
+    intro wrd' mv hw' hrd0 hm
+    rw [hw] at hw'
+    have : wrd' = wrd := (Option.some.inj hw').symm
+    subst this
+    rw [hwrd] at hrd0 ⊢
+    exact mathResult_sound cn.node inReg s s' rd v mv hs hval hstep hrd0 hm
 
 
 /-- non-vacuity: the hypotheses of `plain_transfer_sound` are met by a concrete instruction and
-    state (`addi sp, sp, -16` with sp known to be the entry value) -/
+    state (`addi sp, sp, -16` with sp known to be the entry value), and the out-map then claims
+    `sp = entry sp - 16` -/
 example : ∃ (cn : CNode) (inReg : AMap Reg) (s s' : MState) (rd : Reg) (v : Word),
-    plainValue s cn.node = some (rd, v) ∧ rd < 32 ∧ s.reg 0 = 0#32 ∧ AMap.WF inReg ∧ NoZeroBase inReg ∧
+    plainValue s cn.node = some (rd, v) ∧ rd < 32 ∧ s.reg 0 = 0#32 ∧ s.entry 0 = 0#32 ∧
     Sound s inReg ∧ PlainStep s s' rd v ∧
     AMap.get (nodeRegOut cn inReg []) 2 = some (.ors 2 (-16#32)) := by
   let w : FTok := FTok.default
   let n : Node := .iarith ⟨"Addi", w⟩ ⟨2, w⟩ ⟨2, w⟩ ⟨-16#32, w⟩ RawTok.default
   let cn : CNode := { node := n, labels := [], isText := true }
-  let s : MState := { reg := fun r => if r = 2 then 100#32 else 0#32, entry := fun _ => 100#32, addr := fun _ => 0#32 }
+  let s : MState := { reg := fun r => if r = 2 then 100#32 else 0#32,
+                      entry := fun r => if r = 2 then 100#32 else 0#32, addr := fun _ => 0#32 }
   let s' : MState := { s with reg := fun r => if r = 2 then 84#32 else 0#32 }
-  refine ⟨cn, [(2, .ors 2 0#32)], s, s', 2, 84#32, ?_, by decide, rfl, by simp [AMap.WF], ?_, ?_, ?_, by decide⟩
+  refine ⟨cn, [(2, .ors 2 0#32)], s, s', 2, 84#32, ?_, by decide, rfl, rfl, ?_, ?_, by decide⟩
   · have : Spec.opOf "Addi" = some .add := by decide
     simp only [plainValue, cn, n, this]
     decide
-  · intro p hp
-    simp only [List.mem_singleton] at hp
-    subst hp
-    simp
   · intro r val h
     simp only [AMap.get, List.find?_cons, List.find?_nil] at h
     by_cases hr : r = 2
@@ -790,6 +829,6 @@ example : ∃ (cn : CNode) (inReg : AMap Reg) (s s' : MState) (rd : Reg) (v : Wo
       decide
     · have : ((2 : Nat) == r) = false := by simpa using (fun e => hr e.symm)
       simp [this] at h
-  · exact ⟨fun _ => rfl, fun r hr => by simp [s, s', hr], rfl, rfl⟩
+  · exact ⟨fun _ => rfl, fun r hr => by simp [s, s', hr], rfl, rfl, rfl⟩
 
 end Rva
